@@ -640,7 +640,13 @@ pub fn apply_fault(t: &mut SupplyTrace, plan: &Plan, f: F, r: &mut Rng, prefer_s
             let gone = r.idx(n);
             t.root.doc.signers.remove(gone);
             let keep = r.idx(n - 1);
-            t.root.doc.ops.push(DocOp::SigDup(keep));
+            let kk = t.root.doc.signers[keep];
+            if !t.keys[kk].kind.is_ed() && r.chance(2, 3) {
+                // a randomised scheme: the remaining owner signs twice, two different valid signatures
+                t.root.doc.signers.push(kk);
+            } else {
+                t.root.doc.ops.push(DocOp::SigDup(keep));
+            }
             if r.chance(1, 2) {
                 t.root.doc.ops.push(DocOp::SigShuffle(r.next()));
             }
@@ -818,6 +824,14 @@ pub fn apply_fault(t: &mut SupplyTrace, plan: &Plan, f: F, r: &mut Rng, prefer_s
                 .filter(|(p, _)| p.contains("threshold") || p.contains("pubkeys") || p.contains("expected_") || p.contains("expires") || p.contains("/name"))
                 .collect();
             let (ptr, old) = if !hot.is_empty() && r.chance(2, 3) { (*r.pick(&hot)).clone() } else { r.pick(&ls).clone() };
+            // an empty argument spliced into a command (expected_command of a step, run of an inspection)
+            let cmds: Vec<String> = ls.iter().filter(|(p, _)| p.contains("/expected_command/") || p.contains("/run/")).map(|(p, _)| p[..p.rfind('/').unwrap()].to_string()).collect();
+            if !cmds.is_empty() && r.chance(1, 8) {
+                let arr = r.pick(&cmds).clone();
+                t.root.doc.ops.push(DocOp::Insert { ptr: arr, index: r.idx(2), values: vec![json!("")] });
+                t.labels.push(fname(f).to_string());
+                return true;
+            }
             // a MATCH rule: splice an empty source / destination prefix in (parses to another rule)
             let match_rules: Vec<String> = ls.iter().filter(|(p, v)| p.ends_with("/0") && v.as_str() == Some("MATCH")).map(|(p, _)| p[..p.len() - 2].to_string()).collect();
             if !match_rules.is_empty() && r.chance(1, 6) {
